@@ -116,6 +116,21 @@ def _fn_ip2():
     return {"coq": text, "translated": done, "refused": failed}
 
 
+@unit("fn_ip3")
+def _fn_ip3():
+    """dump_to_file and _ip_to_str: what --dump-ip-map writes for one anonymizer.  The subclass's make_addr_from_int is uninterpreted (the py_call
+    parameter answers it); the file object is the list of strings written to it"""
+    import os
+
+    sys.path.insert(0, os.path.dirname(os.path.abspath(__file__)))
+    import translate
+    import netconan.ip_anonymization as pm
+
+    text, done, failed = translate.translate_module(
+        pm.__file__, pm, wanted=["dump_to_file", "_ip_to_str"], method_oracles=("make_addr_from_int",), io_lists=True)
+    return {"coq": text, "translated": done, "refused": failed}
+
+
 @unit("fn_files")
 def _fn_files():
     """FileAnonymizer.anonymize_io: the loop over the lines and the order of the five stages.  The secrets stage is the generated replace_matching_item;
